@@ -31,6 +31,13 @@ class global_(Command):
                 self.ownerDocument.context.let(a['name'], a['value'],
                                                local=False)
                 return []
+            if name == 'expandafter':
+                # \global\expandafter\def\csname..\endcsname: the prefix
+                # stays pending while \expandafter does its work
+                obj = self.ownerDocument.createElement(name)
+                obj.parentNode = self.parentNode
+                tex.pushTokens(obj.invoke(tex))
+                continue
             tex.pushToken(tok)
             break
 
